@@ -114,7 +114,7 @@ def choose(w, rng):
         groups = sorted(GROUPS)
     classes = [e.tag["cls"] for e in w.pool.values() if e.kind == "obj"]
     single = sorted(c for c in set(classes) if classes.count(c) == 1 and c + ".init" in REG)
-    if single and rng.random() < 0.15:
+    if single and rng.random() < (0.3 if sw.get("p_echo", 0.0) > 0 else 0.15):
         # a second object of a class that already has one: cross-object interference needs twins
         w.ctx.probe("twin_object_requested")
         return REG[rng.choice(single) + ".init"]
